@@ -53,8 +53,11 @@ def run_one(pid, m, repo="/repo", keep=False):
         err = apply_edit(d, m)
         if err:
             return "anchor-missing", err
-        r = subprocess.run([sys.executable, os.path.join(VERIF, "sa", "check.py"), pid, "--root", d, "--no-evidence",
-                            "--tier", "quick"], capture_output=True, text=True, cwd=VERIF)
+        try:
+            r = subprocess.run([sys.executable, os.path.join(VERIF, "sa", "check.py"), pid, "--root", d, "--no-evidence",
+                                "--tier", "quick"], capture_output=True, text=True, cwd=VERIF, timeout=int(os.environ.get("VERIF_MUTANT_TIMEOUT", "600")))
+        except subprocess.TimeoutExpired:
+            return "broken", "timeout"
         out = r.stdout + r.stderr
         if r.returncode == 1:
             return "violation", out
